@@ -168,6 +168,24 @@ Pad(s, w, colw, al) ==
     [] al = "right"  -> Spaces(p) \o s
     [] al = "centre" -> Spaces(p \div 2) \o s \o Spaces(p - (p \div 2))
 
+\* --- the text renderer's public helpers, in terms of the same layout operators -----------------------
+\* decoration.WidthString{S, W}.WithinWidthAligned(available, alignment): the string padded to the width
+\* available (never truncated); a negative W stands for "no content": all blanks; no alignment = left
+WithinExpected(op) ==
+  IF op.w < 0 THEN Spaces(op.avail)
+  ELSE Pad(op.s, op.w, op.avail, IF op.align = "none" THEN "left" ELSE op.align)
+
+\* TextTable.RowToLinesOfWidthStrings(row's cells, column count) after a render has measured the cells:
+\* one entry per slot line of the row and per column -- the cell's line with the width it is laid out at,
+\* or the empty WidthString where the cell has no such line (or the row has no such cell)
+RowLinesExpected(st, op) ==
+  LET T == st.tbl[st.wr[op.w].over]
+      cells == st.row[op.r].cells
+      n == T.ncols
+  IN [l \in 1..RowH(cells, n) |->
+       [c \in 1..n |-> IF c <= Len(cells) /\ l <= Len(cells[c].lines)
+                         THEN <<cells[c].lines[l][1], LineW(cells[c], l)>> ELSE <<"", 0>>]]
+
 \* the padded slot of column i on line j of a row (cells = the row's cells)
 SlotStr(st, T, cells, i, j) ==
   IF i > Len(cells) \/ j > Len(cells[i].lines) THEN Spaces(ColW(st, T, i))
@@ -277,6 +295,22 @@ ImplContentLine(dec, dl, di, dr, parts, widths, aligns) ==
                      ELSE " " \o slot(i) \o " " \o (IF i < n THEN di ELSE dr)) \o Go(i + 1)
   IN << <<(IF dec.boxless = 1 THEN "" ELSE dl) \o Go(1),
           SumSeq([i \in 1..n |-> slotw(i)]) + (IF dec.boxless = 1 THEN n - 1 ELSE 3 * n + 1)>> >>
+
+\* the emitter object itself (Decoration.ForColumnWidths): what its exported methods return for given column
+\* widths, one line of cell strings and alignments -- the two operators above, one call each
+EmitterExpected(op) ==
+  LET dec == op.dec   g == dec.g   ws == op.widths
+      line(x) == IF x = <<>> THEN "" ELSE x[1][1]
+      \* (a negative width stands for "no content": the slot is all blanks)
+      parts == [i \in DOMAIN op.cells |-> IF op.cells[i][2] < 0 THEN <<"", 0, 0>>
+                                           ELSE <<op.cells[i][1], op.cells[i][2], op.cells[i][2]>>]
+  IN [HeaderTop     |-> line(ImplTemplate(dec, g.TopLeft, g.HOuter, g.HTopDown, g.TopRight, ws)),
+      HeaderBodySep |-> line(ImplTemplate(dec, g.HBLeft, g.HOuter, g.HBCross, g.HBRight, ws)),
+      BodyTop       |-> line(ImplTemplate(dec, g.TopLeft, g.HOuter, g.BTopDown, g.TopRight, ws)),
+      Bottom        |-> line(ImplTemplate(dec, g.BottomLeft, g.HOuter, g.BBottomUp, g.BottomRight, ws)),
+      Separator     |-> line(ImplTemplate(dec, g.LeftBodyRule, g.HRule, g.CrossPiece, g.RightBodyRule, ws)),
+      HeaderLine    |-> line(ImplContentLine(dec, g.VHeader, g.VHeader, g.VHeader, parts, ws, op.aligns)),
+      BodyLine      |-> line(ImplContentLine(dec, g.VBodyBorder, g.VBodyInner, g.VBodyBorder, parts, ws, op.aligns))]
 
 EmitText(st, t, dec) ==
   LET T == st.tbl[t]
@@ -748,6 +782,10 @@ BadResMore(s, ns, op, res) ==
   ELSE IF op.op = "autonew" THEN (IF AutoBad(s, op.style, res.auto) # {} THEN {"res.auto"} ELSE {})
   ELSE IF op.op = "liststyles" THEN (IF StylesBad(s, res.styles) # {} THEN {"res.styles"} ELSE {})
   ELSE IF op.op = "faultsweep" THEN (IF FaultsBad(res) # {} THEN {"res.faults"} ELSE {})
+  \* helper API of the text renderer (beyond the listed properties; facets x.*, owned by no check)
+  ELSE IF op.op = "within" THEN (IF res.within # WithinExpected(op) THEN {"x.within"} ELSE {})
+  ELSE IF op.op = "rowlines" THEN (IF res.rowlines # RowLinesExpected(ns, op) THEN {"x.rowlines"} ELSE {})
+  ELSE IF op.op = "emitter" THEN (IF res.emitter # EmitterExpected(op) THEN {"x.emitter"} ELSE {})
   ELSE {}
 
 \* result of the call itself (op-specific observations): the set of failing parts
@@ -782,5 +820,8 @@ ExplainMore(s, ns, op, f, res) ==
   ELSE IF f = "res.auto" THEN AutoBad(s, op.style, res.auto)
   ELSE IF f = "res.styles" THEN StylesBad(s, res.styles)
   ELSE IF f = "res.faults" THEN FaultsBad(res)
+  ELSE IF f = "x.within" THEN {WithinExpected(op)}
+  ELSE IF f = "x.rowlines" THEN {RowLinesExpected(ns, op)}
+  ELSE IF f = "x.emitter" THEN {EmitterExpected(op)}
   ELSE {}
 =============================================================================
